@@ -41,7 +41,7 @@ def run(tier, replay=None):
             ck.coq_ok, ck.coq_error = True, ""
         return None
 
-    mism = {"inherit": None, "ins": None, "shape": None, "strip": None, "exchange": None}
+    mism = {"inherit": None, "ins": None, "shape": None, "strip": None, "wire": None, "exchange": None}
     if ck.coq_ok:
         hdr = "From Security Require Import Model Run.\nOpen Scope string_scope.\n"
         mism["inherit"] = evaluate("inherit", hdr, "inherit_case", "inherit_mismatches")
@@ -52,6 +52,8 @@ def run(tier, replay=None):
             mism["shape"] = evaluate("shape", hdr2, "nat * list requirement * list stmt", "shape_mismatches", shards=2)
         if ck.coq_ok:
             mism["strip"] = evaluate("strip", hdr2, "nat * locs * list requirement * list cattr", "strip_mismatches", shards=2)
+        if ck.coq_ok:
+            mism["wire"] = evaluate("wire", hdr2, "wire_case", "wire_mismatches")
         if ck.coq_ok:
             mism["exchange"] = evaluate("exchange", hdr2, "exchange_case", "exchange_mismatches")
     nm = sum(len(v or []) for v in mism.values())
@@ -68,6 +70,8 @@ def run(tier, replay=None):
         elif mism["shape"]:
             first = {"endpoint_shape_line": lines("cases_shape.txt")[mism["shape"][0]][:3000],
                      "parse_error": res.get("extra", {}).get("last_shape_error")}
+        elif mism["wire"]:
+            first = {"wire_line": lines("cases_wire.txt")[mism["wire"][0]][:3000]}
         elif mism["strip"]:
             first = {"decoder_strip_line": lines("cases_strip.txt")[mism["strip"][0]][:3000],
                      "parse_error": res.get("extra", {}).get("last_strip_error")}
@@ -77,8 +81,8 @@ def run(tier, replay=None):
             first = {"placement_line": lines("cases_inherit.txt")[mism["inherit"][0]][:3000]}
         ck.unproved("correspondence Security model vs goa broke: %d endpoint location table(s) (endpoint_ins vs HTTPEndpointExpr.Requirements), %d placement(s) (effective_reqs/data_reqs vs expr + service data), "
                     "%d endpoint shape(s) (gen_endpoint vs generated endpoints.go), %d request decoder(s) (strip_fields vs generated encode_decode.go), "
-                    "%d exchange(s) (run vs recorded callbacks); the property's own laws held on every case explored"
-                    % (len(mism["ins"] or []), len(mism["inherit"] or []), len(mism["shape"] or []), len(mism["strip"] or []), len(mism["exchange"] or [])),
+                    "%d request(s) on the wire (encode_wire vs tapped request), %d exchange(s) (run vs recorded callbacks); the property's own laws held on every case explored"
+                    % (len(mism["ins"] or []), len(mism["inherit"] or []), len(mism["shape"] or []), len(mism["strip"] or []), len(mism["wire"] or []), len(mism["exchange"] or [])),
                     {"broken": "correspondence", "first_disagreeing_case": first,
                      "mismatching_placements": (mism["inherit"] or [])[:50], "mismatching_shapes": (mism["shape"] or [])[:50], "mismatching_decoders": (mism["strip"] or [])[:50],
                      "mismatching_exchanges": (mism["exchange"] or [])[:50]})
